@@ -1,0 +1,28 @@
+//go:build verif
+
+package qos
+
+import "github.com/cilium/ebpf"
+
+// Verification hook for property C06 (add-only; compiled only with -tags verif).
+
+// VerifC06SetMaps injects already-created kernel maps, addressed by the names
+// bpf/qos_ratelimit.c declares them under, in place of the ones Start takes
+// from the loaded collection (Start needs the compiled object and a NIC).
+// Absent or nil entries leave the corresponding field untouched; unknown names
+// are ignored.  The maps themselves are not touched.
+func (m *Manager) VerifC06SetMaps(maps map[string]*ebpf.Map) {
+	for name, mp := range maps {
+		if mp == nil {
+			continue
+		}
+		switch name {
+		case "qos_egress":
+			m.qosEgress = mp
+		case "qos_ingress":
+			m.qosIngress = mp
+		case "qos_stats_map":
+			m.qosStatsMap = mp
+		}
+	}
+}
